@@ -142,7 +142,7 @@ Proof.
   - destruct (memN x (t_closed s)); [discriminate|]. inversion H; subst. cbn [t_logs]. split.
     + intros sc m [].
     + intros lg Hl. left. exact Hl.
-  - destruct (memN x (t_closed s)); [|discriminate]. inversion H; subst. cbn [t_logs]. split.
+  - inversion H; subst. cbn [t_logs]. split.
     + intros sc m [].
     + intros lg Hl. left. exact Hl.
   - assert (LT : (length (t_logs s) < S (length (t_logs s)))%nat) by lia.
@@ -323,7 +323,7 @@ Proof.
   intros OK H. destruct l as [sc0 m0 x|x|x| |x]; cbn [tstep] in H.
   - right. destruct (memN x (t_closed s)); [discriminate|]. inversion H; subst. cbn. split; [reflexivity|]. split; [intros sc m []|reflexivity].
   - right. destruct (memN x (t_closed s)); [discriminate|]. inversion H; subst. cbn. rewrite app_nil_r. split; [reflexivity|]. split; [intros sc m []|reflexivity].
-  - right. destruct (memN x (t_closed s)); [|discriminate]. inversion H; subst. cbn. rewrite app_nil_r. split; [reflexivity|]. split; [intros sc m []|reflexivity].
+  - right. inversion H; subst. cbn. rewrite app_nil_r. split; [reflexivity|]. split; [intros sc m []|reflexivity].
   - left. assert (LT : (length (t_logs s) < S (length (t_logs s)))%nat) by lia.
     destruct (fwd_loop_spec (S (length (t_logs s))) s OK LT) as (_ & _ & _ & E & O).
     destruct (fwd_loop (S (length (t_logs s))) s) as [s2 o2]. inversion H; subst. cbn [fst snd] in E, O.
